@@ -21,6 +21,11 @@ then the second parse sees the same words, operators and fd numbers.
   `for_without_in_prints_empty_list`).
 * `procsub_word_reads_back` — a process substitution word prints `<( … )` (repair of
   `procsub_word_double_parens`).
+* `lex_case_items`, `lex_case_clause`, `terminators_distinct` — a `case` item (patterns, body or empty
+  body, each of `;;` `;&` `;;&`) reads back as its patterns, `)`, the body's tokens and the terminator.
+* `export_text_importable_by_bash`, `export_wrap_tokens` — the `BASH_FUNC_…%%` text always starts with
+  `() {`; a body that is not a brace group is exported as a brace group holding it (repair of
+  `export_body_not_brace_group`).
 * `heredoc_indented_cex` — still open: a here-document inside a brace group is printed with its end
   tag indented: no line of the printed text is the tag, the document never ends.
 -/
@@ -236,6 +241,147 @@ theorem procsub_word_reads_back :
       (.cons (.mk 0 false (.simple .nil (some "echo".toList) .nil) .nil) .nil false .nil)) .nil))) =
     [.word "cat".toList, .op "<(".toList, .word "echo".toList, .op ")".toList] := by
   decide
+
+/-! ## case items: patterns, empty bodies, the three terminators -/
+
+/-- the tokens a pattern list `a|b|c` is meant to be read as -/
+def toksPats : List Str → List Tok
+  | [] => []
+  | [w] => [.word w]
+  | w :: v :: ws => .word w :: .op ['|'] :: toksPats (v :: ws)
+
+private theorem joinPats_head (v : Str) (ws : List Str) : ∃ t, joinPats (v :: ws) = v ++ t := by
+  cases ws with
+  | nil => exact ⟨[], by simp [joinPats]⟩
+  | cons u us => exact ⟨'|' :: joinPats (u :: us), by simp [joinPats]⟩
+
+private theorem lex_pats_close : ∀ (pats : List Str), pats ≠ [] → (∀ w ∈ pats, Plain w) → ∀ s : Str,
+    lex (joinPats pats ++ ')' :: '\n' :: s) = toksPats pats ++ .op [')'] :: .nl :: lex s
+  | [], h, _, _ => absurd rfl h
+  | [w], _, h, s => by
+    simp only [joinPats, toksPats, lex, List.cons_append, List.nil_append]
+    rw [lex_word_opchar w _ ')' (h w (by simp)) (by decide) (by decide) (by decide), lexGo]
+    simp [emit]
+  | w :: v :: ws, _, h, s => by
+    have ih := lex_pats_close (v :: ws) (by simp) (fun x hx => h x (by simp [hx])) s
+    obtain ⟨t, ht⟩ := joinPats_head v ws
+    simp only [joinPats, toksPats, lex, List.cons_append, List.append_assoc] at ih ⊢
+    rw [lex_word_opchar w _ '|' (h w (by simp)) (by decide) (by decide) (by decide)]
+    have hv : Plain v := h v (by simp)
+    rw [ht, List.append_assoc, lexGo_op_word ['|'] v _ (by simp) hv, ← List.append_assoc, ← ht, ih]
+
+private theorem lex_postStr : ∀ (post : Nat), lex (postStr post) = [.op (postStr post)]
+  | 0 => by decide
+  | 1 => by decide
+  | n + 2 => by
+    show lex ";;&".toList = [.op ";;&".toList]
+    decide
+
+private theorem printCaseItems_head (r : CaseItems) :
+    printCaseItems r = [] ∨ ∃ t, printCaseItems r = '\n' :: t := by
+  cases r with
+  | nil => exact Or.inl rfl
+  | cons pats hasBody body post rest => exact Or.inr ⟨_, rfl⟩
+
+private theorem lex_append_line_start (a r : Str) (h : r = [] ∨ ∃ t, r = '\n' :: t) :
+    lex (a ++ r) = lex a ++ lex r := by
+  rcases h with h | ⟨t, h⟩
+  · subst h; simp [lex, lexGo, emit]
+  · subst h
+    rw [lex_lines]
+    have : lex ('\n' :: t) = .nl :: lex t := by
+      have := lex_lines [] t
+      simpa [lex, lexGo, emit] using this
+    rw [this]
+
+/-- **Case items.** What `CaseItem::fmt` / `CaseClauseCommand::fmt` print for one item — patterns joined
+by `|`, `)`, the (possibly absent) body on its own indented lines, the terminator on its own line —
+reads back as: a line break, the patterns with `|` between them, `)`, the body's tokens (none for an
+empty body), and the terminator as one operator; then the remaining items.  For every pattern list
+of plain words, every body, each terminator, with or without a body. -/
+theorem lex_case_items (pats : List Str) (hasBody : Bool) (body : Items) (post : Nat) (rest : CaseItems)
+    (hne : pats ≠ []) (hp : ∀ w ∈ pats, Plain w) :
+    lex (printCaseItems (.cons pats hasBody body post rest)) =
+      .nl :: (toksPats pats ++ .op [')'] :: .nl ::
+        ((if hasBody then lex (printItems body) else []) ++ .nl :: .op (postStr post) ::
+          lex (printCaseItems rest))) := by
+  have hunf : printCaseItems (.cons pats hasBody body post rest) =
+      indent ('\n' :: joinPats pats ++ ")\n".toList ++ (if hasBody then indent (printItems body) else []) ++
+        '\n' :: postStr post) ++ printCaseItems rest := rfl
+  rw [hunf, lex_append_line_start _ _ (printCaseItems_head rest), lex_indent]
+  have h1 : ('\n' :: joinPats pats ++ ")\n".toList ++ (if hasBody then indent (printItems body) else []) ++
+        '\n' :: postStr post) =
+      [] ++ '\n' :: (joinPats pats ++ ')' :: '\n' :: ((if hasBody then indent (printItems body) else []) ++
+        '\n' :: postStr post)) := by simp
+  rw [h1, lex_lines, lex_pats_close pats hne hp, lex_lines, lex_postStr]
+  have h2 : lex (if hasBody then indent (printItems body) else []) =
+      (if hasBody then lex (printItems body) else []) := by
+    cases hasBody
+    · simp [lex, lexGo, emit]
+    · simp [lex_indent]
+  rw [h2]
+  simp [lex, lexGo, emit]
+
+/-- the three terminators are three different operators -/
+theorem terminators_distinct : ∀ p < 3, ∀ q < 3, postStr p = postStr q → p = q := by decide
+
+/-- `case w in … esac` around the items -/
+theorem lex_case_clause (w : Str) (items : CaseItems) (hw : Plain w) :
+    lex (printCompound (.case w items)) =
+      .word "case".toList :: .word w :: .word "in".toList :: (lex (printCaseItems items) ++ [.nl, .word "esac".toList]) := by
+  have hunf : printCompound (.case w items) =
+      "case".toList ++ ' ' :: (w ++ ' ' :: ("in".toList ++ (printCaseItems items ++ '\n' :: "esac".toList))) := by
+    show "case ".toList ++ w ++ " in".toList ++ printCaseItems items ++ "\nesac".toList = _
+    simp
+  have hcase : lex "case".toList = [.word "case".toList] := by decide
+  have hin : lex "in".toList = [.word "in".toList] := by decide
+  have hesac : lex "esac".toList = [.word "esac".toList] := by decide
+  have hwl : lex w = [.word w] := lex_word_end w hw
+  rw [hunf, lex_blank_split, lex_blank_split, hcase, hwl]
+  rcases printCaseItems_head items with h | ⟨t, h⟩
+  · rw [h]; simp only [List.nil_append]
+    rw [lex_lines, hin, hesac]; simp [lex, lexGo, emit]
+  · rw [h]
+    have e : "in".toList ++ ('\n' :: t ++ '\n' :: "esac".toList) = "in".toList ++ '\n' :: (t ++ '\n' :: "esac".toList) := by simp
+    rw [e, lex_lines, lex_lines, hin, hesac]
+    have : lex ('\n' :: t) = .nl :: lex t := by
+      have := lex_lines [] t
+      simpa [lex, lexGo, emit] using this
+    rw [this]; simp
+
+/-- every terminator, with and without a body, as brush prints it and as it reads back -/
+example : printCompound (.case "$x".toList
+    (.cons [['a'], "b*".toList] true (.cons (.mk 0 false (.simple .nil (some ['p']) .nil) .nil) .nil false .nil) 1
+    (.cons [['c']] false .nil 2 (.cons [['*']] false .nil 0 .nil)))) =
+    "case $x in\n    a|b*)\n        p\n    ;&\n    c)\n\n    ;;&\n    *)\n\n    ;;\nesac".toList := by decide
+
+example : lex (printCaseItems (.cons [['c']] false .nil 2 (.cons [['*']] false .nil 0 .nil))) =
+    [.nl, .word ['c'], .op [')'], .nl, .nl, .op ";;&".toList, .nl, .word ['*'], .op [')'], .nl, .nl, .op ";;".toList] := by
+  decide
+
+/-! ## the exported text -/
+
+/-- bash imports a `BASH_FUNC_name%%` value only when it starts with `() {`: the exported text of
+every function does, whatever compound command its body is. -/
+theorem export_text_importable_by_bash (c : Compound) (rs : Redirs) :
+    "() {".toList <+: exportText c rs := by
+  cases c <;> exact ⟨_, rfl⟩
+
+/-- a body that is not a brace group is exported as the tokens of a brace group holding exactly that
+compound command with its redirects (so the child defines `{ body }`, as bash does) -/
+theorem export_wrap_tokens (c : Compound) (rs : Redirs) (h : isBrace c = false) :
+    lex (exportText c rs) =
+      lex ("() ".toList ++ printCompound (.brace (.cons (.mk 0 false (.comp c rs) .nil) .nil false .nil))) := by
+  have h1 : exportText c rs = "() { ".toList ++ '\n' :: ((printCompound c ++ printRedirs rs) ++ '\n' :: ['}']) := by
+    simp [exportText, h]
+  have h2 : "() ".toList ++ printCompound (.brace (.cons (.mk 0 false (.comp c rs) .nil) .nil false .nil)) =
+      "() { ".toList ++ '\n' :: (indent (printCompound c ++ printRedirs rs) ++ '\n' :: ['}']) := by
+    show "() ".toList ++ ("{ \n".toList ++ indent ((((printCompound c ++ printRedirs rs) ++ []) ++ []) ++ []) ++ "\n}".toList) = _
+    simp
+  rw [h1, h2, lex_lines, lex_lines, lex_lines, lex_lines, lex_indent]
+
+example : exportText (.sub (.cons (.mk 0 false (.simple .nil (some ['p']) .nil) .nil) .nil false .nil)) .nil =
+    "() { \n( p )\n}".toList := by decide
 
 /-! ## the here-document defect (still open), on the model -/
 
